@@ -200,6 +200,7 @@ func wrapperFold(c *Ctx, fd *ast.FuncDecl, machine string, s string) (wrapperObs
 	var res *wrapperObs
 	for _, p := range paths {
 		loopVals := map[string]sval{}
+		mem := map[string]sval{} // folded values of addressed locals (the start line), when their stores fold
 		hook := func(t Term) (sval, bool) {
 			if isParamTerm(t, jsonP) {
 				return sval{K: 's', S: s}, true
@@ -207,6 +208,13 @@ func wrapperFold(c *Ctx, fd *ast.FuncDecl, machine string, s string) (wrapperObs
 			if lv, ok := t.(TLoop); ok {
 				if v, ok := loopVals[key(lv)]; ok {
 					return v, true
+				}
+			}
+			if d, ok := t.(TDeref); ok {
+				if a, ok := d.X.(TAddr); ok {
+					if v, ok := mem[key(a.X)]; ok {
+						return v, true
+					}
 				}
 			}
 			return sval{}, false
@@ -231,6 +239,14 @@ func wrapperFold(c *Ctx, fd *ast.FuncDecl, machine string, s string) (wrapperObs
 				}
 			case "store":
 				stores[key(st.LHS)] = st.RHS
+				if _, isVar := st.LHS.(TVar); isVar {
+					e := &strEnv{hook: hook}
+					if v, ok := e.val(st.RHS); ok && e.panic == "" {
+						mem[key(st.LHS)] = v
+					} else {
+						delete(mem, key(st.LHS))
+					}
+				}
 			case "call":
 				if st.Call != nil && st.Call.Fun != nil && st.Call.Fun.Name() == machine && st.Call.Fun.Pkg() == c.Types {
 					if call != nil {
@@ -241,7 +257,7 @@ func wrapperFold(c *Ctx, fd *ast.FuncDecl, machine string, s string) (wrapperObs
 					obs.why = "unexpected call of " + st.Call.Fun.Name()
 				}
 			case "loop":
-				fin, why := c.foldLoop(st.Loop, hook, 32)
+				fin, why := c.foldLoopMem(st.Loop, hook, 32, mem)
 				if why != "" {
 					obs.why = "loop in the wrapper cannot be folded: " + why
 				}
@@ -268,7 +284,9 @@ func wrapperFold(c *Ctx, fd *ast.FuncDecl, machine string, s string) (wrapperObs
 				obs.why = "the machine's input cannot be folded"
 			}
 			if ad, ok := call.Args[1].(TAddr); ok {
-				if rhs, ok := stores[key(ad.X)]; ok {
+				if v, ok := mem[key(ad.X)]; ok && v.K == 'i' {
+					obs.line, obs.lineOK = v.I, true // the addressed local as the stores (also inside a counting loop) left it
+				} else if rhs, ok := stores[key(ad.X)]; ok {
 					e2 := &strEnv{hook: hook}
 					if v, ok := e2.val(rhs); ok && v.K == 'i' {
 						obs.line, obs.lineOK = v.I, true
